@@ -244,6 +244,13 @@ class Query:
             self.failures.append(what)
             self.paths.append({'what': what, 'blocks': self._describe(path), 'bfs_confirmed': bfs is not None})
 
+    def must_call(self, targets, callee_re, what, src='bb0'):
+        """Every path src -> target passes a call to `callee_re`: UNSAT(path avoiding the return edges of all such calls).
+        No such call site at all => the bypass is any path (FAILS, not an error)."""
+        calls = self.cfg.find_calls(callee_re, required=False)
+        edges = [(c.block, c.ret) for c in calls]
+        self.must_pass(targets, edges, what, src=src)
+
     def must_not_reach(self, src, targets, what):
         """UNSAT( exists path src -> target )"""
         self.must_pass(targets, [], what, src=src)
